@@ -712,10 +712,14 @@ struct FailCase {
     k: u32,
     all: bool,
     op: TryOp,
+    /// the arena owns a second, currently unused chunk (left behind by an earlier scope) when the collection is created
+    retained: bool,
+    /// finalise right after the failed operation (no further push in between)
+    direct: bool,
 }
 impl FailCase {
     fn text(&self) -> String {
-        format!("fail:cfg={};kind={:?};zst={};n={};k={};all={};op={:?}", self.ci, self.kind, self.zst as u8, self.n, self.k, self.all as u8, self.op)
+        format!("fail:cfg={};kind={:?};zst={};n={};k={};all={};ret={};direct={};op={:?}", self.ci, self.kind, self.zst as u8, self.n, self.k, self.all as u8, self.retained as u8, self.direct as u8, self.op)
     }
 }
 
@@ -767,6 +771,12 @@ where
     SlabZ: BaseAllocator<S::GuaranteedAllocated>,
 {
     let mut bump: B<S> = Bump::new_in(SlabZ);
+    if c.retained {
+        bump.scoped(|s| {
+            let rem = s.stats().remaining();
+            let _ = s.alloc_slice_fill(rem + 1, 0u8);
+        });
+    }
     let _ = bump.alloc(0u8);
     let mut model: Vec<u32> = (1..=c.n as u32).map(|v| if T::IS_ZST { 0 } else { v }).collect();
     let arm = |c: &FailCase| {
@@ -803,14 +813,23 @@ where
                 return Err(format!("{:?} succeeded with contents {:?}, expected {:?}", c.op, got, model));
             }
             // the collection keeps working afterwards
-            if let Err(_) = $v.try_push(T::new(99)) {
-                return Err("try_push after the fault was lifted failed".into());
+            if !c.direct {
+                if let Err(_) = $v.try_push(T::new(99)) {
+                    return Err("try_push after the fault was lifted failed".into());
+                }
+                if $rev { model.insert(0, if T::IS_ZST { 0 } else { 99 }) } else { model.push(if T::IS_ZST { 0 } else { 99 }) }
             }
-            if $rev { model.insert(0, if T::IS_ZST { 0 } else { 99 }) } else { model.push(if T::IS_ZST { 0 } else { 99 }) }
             let got: Vec<u32> = $v.iter().map(|e| e.val()).collect();
             if got != model {
                 return Err(format!("after the failed {:?} and one more push the contents are {:?}, expected {:?}", c.op, got, model));
             }
+            // finalising after the failure hands out exactly the contents
+            let boxed = $v.into_boxed_slice();
+            let got: Vec<u32> = boxed.iter().map(|e| e.val()).collect();
+            if got != model {
+                return Err(format!("into_boxed_slice after the failed {:?} holds {:?}, expected {:?}", c.op, got, model));
+            }
+            drop(boxed);
             failed
         }};
     }
@@ -831,6 +850,20 @@ where
             scenario!(v, true)
         }
     };
+    // the arena is still coherent and keeps working
+    let st = bump.stats();
+    for ch in st.small_to_big() {
+        let (lo, hi, pos) = (ch.content_start().as_ptr() as usize, ch.content_end().as_ptr() as usize, ch.bump_position().as_ptr() as usize);
+        if pos < lo || pos > hi {
+            return Err(format!("after the failed {:?} a chunk's bump position {pos:#x} lies outside its content range {lo:#x}..{hi:#x}", c.op));
+        }
+    }
+    if st.allocated() > st.capacity() {
+        return Err(format!("after the failed {:?} allocated() = {} exceeds capacity() = {}", c.op, st.allocated(), st.capacity()));
+    }
+    if bump.try_alloc(0x7777_7777u32).map(|b| *b).ok() != Some(0x7777_7777) {
+        return Err("the arena refused a small allocation after the fault was lifted".into());
+    }
     Ok(failed)
 }
 
@@ -891,7 +924,11 @@ pub fn explore_alloc_failures(thorough: bool, _deadline: Instant) -> (J, Vec<J>)
                     for op in ops {
                         for k in 0..if thorough { 3 } else { 2 } {
                             for all in [true, false] {
-                                cases.push(FailCase { ci, kind, zst, n, k, all, op });
+                                for retained in [false, true] {
+                                    for direct in [false, true] {
+                                        cases.push(FailCase { ci, kind, zst, n, k, all, op, retained, direct });
+                                    }
+                                }
                             }
                         }
                     }
@@ -940,7 +977,7 @@ pub fn explore_alloc_failures(thorough: bool, _deadline: Instant) -> (J, Vec<J>)
         .set("states", ev)
         .set("transitions", ev)
         .set("traces_validated_against_impl", ev)
-        .set("rule", "collection part of C07: {BumpVec, MutBumpVec, MutBumpVecRev} x sized/zero-sized elements x initial length x 4 arena configurations (16-byte first chunk) x every try_ growth operation (try_push, try_push_with, try_insert at 3 indices, try_reserve(_exact), try_extend_from_slice_clone, try_extend_from_within_clone, try_append, try_resize(_with) with amounts 1/4/40/400) x fault plan (the k-th base-allocator call after the collection exists fails, alone or together with all later ones); a refused call must yield Err with length and contents unchanged (no panic), the collection must keep working after the fault is lifted, and drop / release accounting must be exact; non-trivial = cases in which the operation actually failed")
+        .set("rule", "collection part of C07: {BumpVec, MutBumpVec, MutBumpVecRev} x sized/zero-sized elements x initial length x 4 arena configurations (16-byte first chunk; with and without a second, unused chunk retained from an earlier scope) x every try_ growth operation (try_push, try_push_with, try_insert at 3 indices, try_reserve(_exact), try_extend_from_slice_clone, try_extend_from_within_clone, try_append, try_resize(_with) with amounts 1/4/40/400) x fault plan (the k-th base-allocator call after the collection exists fails, alone or together with all later ones); a refused call must yield Err with length and contents unchanged (no panic), the collection must keep working after the fault is lifted, finalising it (into_boxed_slice) must hand out exactly its contents, the arena must stay coherent (every bump position inside its chunk, allocated() <= capacity(), next allocation works), and drop / release accounting must be exact; non-trivial = cases in which the operation actually failed")
         .set("samples", samples)
         .set("exhaustive", true);
     let space = J::obj()
@@ -1096,6 +1133,8 @@ pub fn replay(case: &str) -> Option<String> {
             k: m["k"].parse().ok()?,
             all: m["all"] == "1",
             op,
+            retained: m.get("ret").is_some_and(|r| r == "1"),
+            direct: m.get("direct").is_some_and(|r| r == "1"),
         };
         return fail_case(&c).err();
     }
